@@ -68,14 +68,14 @@ var clientNames = []string{"", "cli:v1.0", "any-sync-node:v0.9", "middle:v0.40.1
 
 type accStub struct{ keys *accountdata.AccountKeys }
 
-func (a *accStub) Init(*app.App) error                { return nil }
-func (a *accStub) Name() string                       { return accountservice.CName }
+func (a *accStub) Init(*app.App) error               { return nil }
+func (a *accStub) Name() string                      { return accountservice.CName }
 func (a *accStub) Account() *accountdata.AccountKeys { return a.keys }
 
 type confStub struct{ c secureservice.Config }
 
-func (c *confStub) Init(*app.App) error                     { return nil }
-func (c *confStub) Name() string                            { return "config" }
+func (c *confStub) Init(*app.App) error                    { return nil }
+func (c *confStub) Name() string                           { return "config" }
 func (c *confStub) GetSecureService() secureservice.Config { return c.c }
 
 type ncStub struct {
